@@ -732,4 +732,238 @@ theorem evalAllot_dinv (c : Cx) (bal0 : Acct → Asset → Int) (env : VEnv) : (
     exact ⟨h1.trans h2, hgr, by rw [hra, (assemble_pair hasm).1]⟩
 end
 
+/-! ### sends -/
+
+/-- the tail of every send: the destination consumes the funding, what it keeps is repaid -/
+theorem finishSend_dinv {c : Cx} {bal0 : Acct → Asset → Int} {env : VEnv} {d : Dest} {f : Fund} {st st' : St}
+    {fl : Acct → Asset → Int} (h : finishSend env d f st = .ok st') (hg : Good c f) (hi : DInv c bal0 st fl)
+    (hle : ∀ x A, flOf f x A ≤ fl x A) : DInv c bal0 st' (fun x A => fl x A - flOf f x A) := by
+  obtain ⟨rest, st1, hd, rfl⟩ := finishSend_inv h
+  obtain ⟨h1, hgr, _⟩ := evalDest_dinv c bal0 env d f rest st st1 hd hg
+  obtain ⟨hF, hB⟩ := h1 fl hi hle
+  have h2 := repay_binv rest.parts st1.bal _ hgr.eta hB
+  exact ⟨hF, h2.congr (fun x A => by have := flOf_eta rest x A; omega)⟩
+
+/-- the sources of a source allotment: each funding taken enters the flight -/
+theorem evalAllotSources_binv (c : Cx) (R : Acct → Asset → Int) (env : VEnv) (asset ma : Asset) :
+    (items : List (PortionSpec × Source)) → (parts : List Int) → (b b' : Bal) → (ts : List Fund) →
+    (fl : Acct → Asset → Int) → evalAllotSources env asset ma items parts b = .ok (ts, b') →
+    (∀ it ∈ items, ∀ o ∈ sourceOcc env asset it.2, OccOK c.g o) → BInv c R b fl →
+    BInv c R b' (fun x A => fl x A + (ts.map (fun f => flOf f x A)).sum) ∧ (∀ t ∈ ts, Good c t)
+  | [], parts, b, b', ts, fl, h, _, hi => by
+    obtain ⟨rfl, rfl⟩ := evalAllotSources_nil_inv h
+    exact ⟨hi.congr (fun x A => by simp), fun t ht => by simp at ht⟩
+  | it :: rest, parts, b, b', ts, fl, h, hocc, hi => by
+    obtain ⟨p, ps, f, fb, b1, t, b2, ts', rfl, hs, ht, hr, rfl⟩ := evalAllotSources_cons_inv h
+    obtain ⟨h1, hgf, hfb⟩ := evalSource_binv c R env asset it.2 b b1 f fb fl hs (hocc it List.mem_cons_self) hi
+    obtain ⟨h2, hgt, _⟩ := takeFromSource_binv ht hgf hfb h1
+    obtain ⟨h3, hgts⟩ := evalAllotSources_binv c R env asset ma rest ps b2 b' ts' _ hr
+      (fun it' hit => hocc it' (List.mem_cons_of_mem _ hit)) h2
+    refine ⟨h3.congr (fun x A => by simp only [List.map_cons, List.sum_cons]; omega), ?_⟩
+    intro u hu
+    rcases List.mem_cons.mp hu with rfl | hu
+    · exact hgt
+    · exact hgts u hu
+
+def vsourceOcc (env : VEnv) (asset : Asset) : VSource → List Occ
+  | .src s => sourceOcc env asset s
+  | .allot items => items.flatMap (fun it => sourceOcc env asset it.2)
+
+/-- the source occurrences of a send, in the asset the send is made in -/
+def sendOcc (env : VEnv) (amt : SendAmt) (src : VSource) : List Occ :=
+  match amt with
+  | .mon e => (match leftAsset env e with | .ok a => vsourceOcc env a src | .error _ => [])
+  | .all ae => (match evalAsset env ae with | .ok a => vsourceOcc env a src | .error _ => [])
+
+def stmtOcc (env : VEnv) : Stmt → List Occ
+  | .send amt src _ => sendOcc env amt src
+  | _ => []
+
+/-- **a send preserves the invariant** (whatever else is in flight) -/
+theorem evalSend_dinv {c : Cx} {bal0 : Acct → Asset → Int} {env : VEnv} {amt : SendAmt} {src : VSource} {d : Dest}
+    {st st' : St} {fl : Acct → Asset → Int} (h : evalSend env amt src d st = .ok st')
+    (hocc : ∀ o ∈ sendOcc env amt src, OccOK c.g o) (hfl : ∀ x A, 0 ≤ fl x A) (hi : DInv c bal0 st fl) :
+    DInv c bal0 st' fl := by
+  obtain ⟨hF, hB⟩ := hi
+  cases amt with
+  | mon e =>
+    cases src with
+    | src s =>
+      obtain ⟨a, f, fb, b1, ma, mn, taken, b2, hl, hs, _, ht, hfin⟩ := evalSend_mon_src_inv h
+      obtain ⟨h1, hgf, hfb⟩ := evalSource_binv c _ env a s st.bal b1 f fb fl hs
+        (fun o ho => hocc o (by simp only [sendOcc, hl, vsourceOcc]; exact ho)) hB
+      obtain ⟨h2, hgt, _⟩ := takeFromSource_binv ht hgf hfb h1
+      have h3 := finishSend_dinv (st := { st with bal := b2 }) hfin hgt ⟨hF, h2⟩
+        (fun x A => by have := hfl x A; omega)
+      exact h3.congr (fun x A => by omega)
+    | allot items =>
+      obtain ⟨ma, mn, a, ps, ts, b1, f, _, hl, _, hs, hasm, hfin⟩ := evalSend_mon_allot_inv h
+      obtain ⟨h1, hgts⟩ := evalAllotSources_binv c _ env a ma items _ st.bal b1 ts fl hs
+        (fun it hit o ho => hocc o (by
+          simp only [sendOcc, hl, vsourceOcc, List.mem_flatMap]; exact ⟨it, hit, ho⟩)) hB
+      have hgf : Good c f := Good.assemble hasm hgts
+      have h3 := finishSend_dinv (st := { st with bal := b1 }) hfin hgf ⟨hF, h1⟩
+        (fun x A => by have := hfl x A; rw [flOf_assemble hasm]; omega)
+      exact h3.congr (fun x A => by rw [flOf_assemble hasm]; omega)
+  | all ae =>
+    cases src with
+    | src s =>
+      obtain ⟨a, f, fb, b1, hl, hs, hfin⟩ := evalSend_all_src_inv h
+      obtain ⟨h1, hgf, _⟩ := evalSource_binv c _ env a s st.bal b1 f fb fl hs
+        (fun o ho => hocc o (by simp only [sendOcc, hl, vsourceOcc]; exact ho)) hB
+      have h3 := finishSend_dinv (st := { st with bal := b1 }) hfin hgf ⟨hF, h1⟩
+        (fun x A => by have := hfl x A; omega)
+      exact h3.congr (fun x A => by omega)
+    | allot items => rw [evalSend_all_allot] at h; cases h
+
+/-! ### statements and whole scripts -/
+
+/-- the invariant between statements: nothing in flight; what `save` has set aside is some non-negative amount -/
+def SInv (g : Acct → Asset → Option Int) (K : Acct → Asset → Prop) (bal0 : Acct → Asset → Int) (st : St) : Prop :=
+  ∃ saved, DInv ⟨g, K, saved⟩ bal0 st (fun _ _ => 0)
+
+/-- `save [A n] from a` / `save [A *] from a`: an amount `m ≥ 0` moves from the tracked balance to `saved` -/
+theorem save_sinv {g : Acct → Asset → Option Int} {K : Acct → Asset → Prop} {bal0 : Acct → Asset → Int} {st : St}
+    {a : Acct} {s : Asset} {t m : Int} (ht : st.bal.get a s = some t) (hm : 0 ≤ m) (hi : SInv g K bal0 st) :
+    SInv g K bal0 { st with bal := st.bal.upd a s (t - m) } := by
+  obtain ⟨saved, hF, hD, hP⟩ := hi
+  have hK : K a s := (hD a s).mp (by rw [ht]; rfl)
+  refine ⟨fun x A => saved x A + (if x = a ∧ A = s then m else 0), hF, dom_upd (c := ⟨g, K, saved⟩) hD hK _, ?_⟩
+  intro x A hxw gv hgv t' ht'
+  dsimp only at ht' ⊢
+  rw [upd_get] at ht'
+  by_cases hx : x = a ∧ A = s
+  · obtain ⟨rfl, rfl⟩ := hx
+    simp only [and_self, if_true, Option.some.injEq] at ht' ⊢
+    subst ht'
+    obtain ⟨hs, he, hd⟩ := hP x A hxw gv hgv t ht
+    dsimp only at hs he hd
+    exact ⟨by omega, by omega, by omega⟩
+  · simp only [hx, if_false] at ht' ⊢
+    obtain ⟨hs, he, hd⟩ := hP x A hxw gv hgv t' ht'
+    dsimp only at hs he hd
+    exact ⟨by omega, by omega, by omega⟩
+
+theorem evalStmt_sinv {g : Acct → Asset → Option Int} {K : Acct → Asset → Prop} {bal0 : Acct → Asset → Int}
+    {env : VEnv} {s : Stmt} {F F' : Full} (h : evalStmt env s F = .ok F')
+    (hocc : ∀ o ∈ stmtOcc env s, OccOK g o) (hi : SInv g K bal0 F.st) : SInv g K bal0 F'.st := by
+  by_cases h1 : ∃ amt src d, s = .send amt src d
+  · obtain ⟨amt, src, d, rfl⟩ := h1
+    obtain ⟨st, hs, rfl⟩ := evalStmt_send_inv h
+    obtain ⟨saved, hD⟩ := hi
+    exact ⟨saved, evalSend_dinv (c := ⟨g, K, saved⟩) hs hocc (fun _ _ => Int.le_refl 0) hD⟩
+  · by_cases h2 : ∃ e acc, s = .saveMon e acc
+    · obtain ⟨e, acc, rfl⟩ := h2
+      obtain ⟨ma, mn, a, t, _, _, hmn, ht, rfl⟩ := evalStmt_saveMon_inv h
+      exact save_sinv ht hmn hi
+    · by_cases h3 : ∃ ae acc, s = .saveAll ae acc
+      · obtain ⟨ae, acc, rfl⟩ := h3
+        obtain ⟨s, a, t, _, _, ht, rfl⟩ := evalStmt_saveAll_inv h
+        by_cases hpos : t > 0
+        · simp only [hpos, if_true]
+          have := save_sinv (m := t) ht (by omega) hi
+          simpa using this
+        · simp only [hpos, if_false]
+          exact hi
+      · have := evalStmt_other_inv h (fun amt src d hs => h1 ⟨amt, src, d, hs⟩)
+          (fun e acc hs => h2 ⟨e, acc, hs⟩) (fun ae acc hs => h3 ⟨ae, acc, hs⟩)
+        rw [this]; exact hi
+
+theorem evalStmts_sinv {g : Acct → Asset → Option Int} {K : Acct → Asset → Prop} {bal0 : Acct → Asset → Int}
+    {env : VEnv} : (ss : List Stmt) → (F F' : Full) → evalStmts env ss F = .ok F' →
+    (∀ o ∈ ss.flatMap (stmtOcc env), OccOK g o) → SInv g K bal0 F.st → SInv g K bal0 F'.st
+  | [], F, F', h, _, hi => by
+    simp only [evalStmts, Except.ok.injEq] at h
+    rw [← h]; exact hi
+  | s :: ss, F, F', h, hocc, hi => by
+    obtain ⟨F1, h1, h2⟩ := evalStmts_cons_inv h
+    have hi1 := evalStmt_sinv h1 (fun o ho => hocc o (by
+      simp only [List.flatMap_cons, List.mem_append]; exact Or.inl ho)) hi
+    exact evalStmts_sinv ss F1 F' h2 (fun o ho => hocc o (by
+      simp only [List.flatMap_cons, List.mem_append]; exact Or.inr ho)) hi1
+
+/-- the state a run starts from satisfies the invariant: tracked = real, nothing saved, nothing in flight -/
+theorem init_sinv (g : Acct → Asset → Option Int) (store : Store) (nd : List (Acct × Asset)) :
+    SInv g (fun x A => nd.contains (x, A) = true) store.balance ⟨initBal store nd, []⟩ := by
+  refine ⟨fun _ _ => 0, trivial, ?_, ?_⟩
+  · intro x A
+    simp only [initBal]
+    by_cases hc : nd.contains (x, A) = true <;> simp [hc]
+  · intro x A hxw gv _ t ht
+    simp only [initBal] at ht
+    by_cases hc : nd.contains (x, A) = true
+    · rw [if_pos hc, if_neg hxw] at ht
+      simp only [Option.some.injEq] at ht
+      subst ht
+      simp [realBal]
+    · rw [if_neg hc] at ht; cases ht
+
+/-! ### the bound the script text grants -/
+
+/-- `grants`: per (account, asset), `none` if some occurrence of the account as a source for that asset is the
+literal world or unbounded, else the largest overdraft among its occurrences (a bare occurrence counts 0; an
+account that never occurs as a source gets 0) -/
+def grantsOf (occ : List Occ) (x : Acct) (A : Asset) : Option Int :=
+  let m := occ.filter (fun o => o.acct = x ∧ o.asset = A)
+  if m.any (fun o => o.od.isNone) then none
+  else match m.filterMap (·.od) with
+    | [] => some 0
+    | v :: vs => some (vs.foldl max v)
+
+def grants (env : VEnv) (stmts : List Stmt) : Acct → Asset → Option Int := grantsOf (stmts.flatMap (stmtOcc env))
+
+theorem le_foldl_max_init (l : List Int) (init : Int) : init ≤ l.foldl max init := by
+  induction l generalizing init with
+  | nil => exact Int.le_refl _
+  | cons a l ih => exact Int.le_trans (Int.le_max_left init a) (ih (max init a))
+
+theorem le_foldl_max (l : List Int) (init v : Int) (h : v ∈ l) : v ≤ l.foldl max init := by
+  induction l generalizing init with
+  | nil => simp at h
+  | cons a l ih =>
+    rcases List.mem_cons.mp h with rfl | h
+    · exact Int.le_trans (Int.le_max_right init v) (le_foldl_max_init l (max init v))
+    · exact ih (max init a) h
+
+/-- every occurrence is covered by the bound computed from the list of occurrences -/
+theorem grantsOf_ok (occ : List Occ) : ∀ o ∈ occ, OccOK (grantsOf occ) o := by
+  intro o ho
+  have hm : o ∈ occ.filter (fun o' => o'.acct = o.acct ∧ o'.asset = o.asset) := by
+    simp [List.mem_filter, ho]
+  unfold OccOK
+  cases hod : o.od with
+  | none =>
+    simp only
+    unfold grantsOf
+    have : (occ.filter (fun o' => o'.acct = o.acct ∧ o'.asset = o.asset)).any (fun o => o.od.isNone) = true :=
+      List.any_eq_true.mpr ⟨o, hm, by simp [hod]⟩
+    simp only [this, if_true]
+  | some v =>
+    simp only
+    intro gv hgv
+    unfold grantsOf at hgv
+    simp only at hgv
+    split at hgv
+    · cases hgv
+    · have hv : v ∈ (occ.filter (fun o' => o'.acct = o.acct ∧ o'.asset = o.asset)).filterMap (·.od) :=
+        List.mem_filterMap.mpr ⟨o, hm, hod⟩
+      split at hgv
+      · rename_i heq; rw [heq] at hv; simp at hv
+      · rename_i w ws heq
+        rw [heq] at hv
+        simp only [Option.some.injEq] at hgv
+        subst hgv
+        rcases List.mem_cons.mp hv with rfl | hv
+        · exact le_foldl_max_init ws v
+        · exact le_foldl_max ws w v hv
+
+/-- **the floor theorem on the interpreter**: from the state a run starts in, every posting emitted by the
+statements respects the floor given by the overdrafts the script text grants -/
+theorem evalStmts_floor {env : VEnv} {store : Store} {stmts : List Stmt} {F : Full}
+    (h : evalStmts env stmts { st := { bal := initBal store (needed env stmts), postings := [] } } = .ok F) :
+    FloorOK (grants env stmts) store.balance F.st.postings := by
+  have := evalStmts_sinv (g := grants env stmts) stmts _ F h (grantsOf_ok _) (init_sinv _ store _)
+  obtain ⟨_, hF, _⟩ := this
+  exact hF
+
 end Num
